@@ -2,7 +2,7 @@
    and ends with a segment, every segment is non-empty and of one shape, every switch sits
    between two segments that meet at one position.  Statements only. *)
 From Coq Require Import ZArith List Bool.
-From BS Require Import Core.Base Model.Tracer Model.Reverse Proofs.TracerProofs Proofs.ReverseProofs.
+From BS Require Import Core.Base Model.Tracer Model.Reverse Proofs.TracerProofs Proofs.ReverseProofs Proofs.WfSpec.
 Import ListNotations.
 
 Theorem C11_traced_path_wf : forall ops p, itrace ops = Ok p -> wfb p = true.
@@ -13,6 +13,16 @@ Theorem C11_reverse_wf : forall p, wfb p = true -> wfb (reverse_path p) = true.
 Proof. exact reverse_wf. Qed.
 Theorem C11_traced_then_reversed_wf : forall ops p, itrace ops = Ok p -> wfb (reverse_path p) = true.
 Proof. intros ops p H. exact (reverse_wf p (itrace_wf ops p H)). Qed.
+
+(* the boolean checker is the property's own wording (Proofs/WfSpec.v: WF speaks of positions in the path:
+   first and last action are segments, every segment non-empty and of one shape, every switch between two
+   segments that meet) *)
+Theorem C11_checker_is_the_definition : forall p, wfb p = true <-> WF p.
+Proof. exact wfb_iff_WF. Qed.
+Theorem C11_traced_path_WF : forall ops p, itrace ops = Ok p -> WF p /\ WF (reverse_path p).
+Proof.
+  intros ops p H. split; apply wfb_iff_WF; [exact (itrace_wf ops p H) | exact (reverse_wf p (itrace_wf ops p H))].
+Qed.
 
 (* wfb is not trivially true: each clause can fail *)
 Example C11_wfb_rejects :
@@ -27,3 +37,5 @@ Print Assumptions C11_traced_path_wf.
 Print Assumptions C11_reference_path_wf.
 Print Assumptions C11_reverse_wf.
 Print Assumptions C11_traced_then_reversed_wf.
+Print Assumptions C11_checker_is_the_definition.
+Print Assumptions C11_traced_path_WF.
